@@ -7,7 +7,9 @@ SPEC = {
              "A and B apply all (answers and whitelisted canonical catalogue equal after every step), C restores a snapshot of B taken after a generated cut and applies "
              "the suffix (answers equal to A's, catalogue equal after the restore and after every suffix step). A case is non-trivial when >= 10 commands succeeded up to "
              "the cut and >= 3 after it; distinct = hash of (config, ops, cut). Classes 'gen <type>' / 'ok <type>' count the cases in which a command type was generated / "
-             "succeeded at least once; notes carry per-process op totals"),
+             "succeeded at least once; classes 'field non-zero at snapshot: Type.Field' count, per catalogue field (reflection over meta.Data), the cases in which the field "
+             "held a non-zero value in the catalogue the snapshot was taken from (a field that is always zero cannot reveal that clone/marshal/unmarshal forgets it); notes carry "
+             "per-process op totals and the list of catalogue fields no generated history populated"),
     "assumptions": [
         "commands are only compared for shapes a real sender produces (argument checks of the client are re-done; checks against the client's cached catalogue are modelled as a fresh cache)",
         "HA policy write-available-first (default): replica groups stay empty, UpdateReplicationCommand is generated but always refused",
